@@ -181,4 +181,101 @@ theorem stringPropHeap_complete {h : Heap} {w : Wit} (hwf : WF h w) {n s : Nat} 
       simp only [hn, Bool.not_true, Bool.false_eq_true, if_false, hk]
       exact ih f (by omega)
 
+/-! ### the generator protocol under edits by the consumer -/
+
+/-- an edit `h → h1` made while the generator is suspended in state `st'` (successor already read) leaves the rest of
+    the iteration alone: the remaining walk and the filter's verdict on its elements are the same in `h1` as in `h` -/
+def EditFrame (keep : Heap → Nat → Bool) (h h1 : Heap) (st' : GenSt) : Prop :=
+  ∀ f, genList h1 f st' = genList h f st' ∧ ∀ e ∈ genList h f st', keep h1 e = keep h e
+
+theorem filter_congr_mem {α : Type} (p q : α → Bool) : ∀ (l : List α), (∀ a ∈ l, p a = q a) → l.filter p = l.filter q := by
+  intro l
+  induction l with
+  | nil => intro _; rfl
+  | cons a l ih =>
+    intro h
+    simp only [List.filter_cons, h a (by simp)]
+    rw [ih (fun x hx => h x (by simp [hx]))]
+
+/-- If, in every state satisfying an invariant `Inv` (on heap and suspended generator) that plain turns and edits
+    preserve, every edit the consumer makes has the frame property, the interleaved iteration hands out exactly what an
+    undisturbed iteration of the *initial* heap hands out. -/
+theorem stringsIterEdit_eq (keep : Heap → Nat → Bool) (edit : Heap → Nat → Nat → Option Op) (Inv : Heap → GenSt → Prop)
+    (hnext : ∀ h st c st', Inv h st → genNext h st = some (c, st') → Inv h st')
+    (hedit : ∀ h st c st' k op h1, Inv h st → genNext h st = some (c, st') → keep h c = true → edit h k c = some op →
+      step h op = .ok h1 → Inv h1 st' ∧ EditFrame keep h h1 st') :
+    ∀ (f : Nat) (h : Heap) (st : GenSt) (k : Nat) (l : List Nat) (h' : Heap), Inv h st →
+      stringsIterEdit keep edit f h st k = .ok (l, h') → l = (genList h f st).filter (keep h) := by
+  intro f
+  induction f with
+  | zero => intro h st k l h' _ hr; simp only [stringsIterEdit] at hr; cases hr; rfl
+  | succ f ih =>
+    intro h st k l h' hI hr
+    simp only [stringsIterEdit] at hr
+    cases hg : genNext h st with
+    | none => simp only [hg] at hr; cases hr; simp [genList, hg]
+    | some p =>
+      obtain ⟨c, st'⟩ := p
+      simp only [hg] at hr
+      simp only [genList, hg, List.filter_cons]
+      have hI' := hnext h st c st' hI hg
+      by_cases hk : keep h c = true
+      · simp only [hk, if_true] at hr ⊢
+        cases he : edit h k c with
+        | none =>
+          simp only [he] at hr
+          cases hrec : stringsIterEdit keep edit f h st' (k + 1) with
+          | error e => simp only [hrec] at hr; cases hr
+          | ok r =>
+            obtain ⟨l2, h2⟩ := r
+            simp only [hrec] at hr; cases hr
+            rw [ih h st' (k + 1) l2 h' hI' hrec]
+        | some op =>
+          simp only [he] at hr
+          cases hs : step h op with
+          | error e => simp only [hs] at hr; cases hr
+          | ok h1 =>
+            simp only [hs] at hr
+            cases hrec : stringsIterEdit keep edit f h1 st' (k + 1) with
+            | error e => simp only [hrec] at hr; cases hr
+            | ok r =>
+              obtain ⟨l2, h2⟩ := r
+              simp only [hrec] at hr; cases hr
+              obtain ⟨hI1, hfr⟩ := hedit h st c st' k op h1 hI hg hk he hs
+              rw [ih h1 st' (k + 1) l2 h' hI1 hrec, (hfr f).1]
+              rw [filter_congr_mem (keep h1) (keep h) _ (hfr f).2]
+      · have hk' : keep h c = false := by simpa using hk
+        simp only [hk', Bool.false_eq_true, if_false] at hr ⊢
+        exact ih h st' k l h' hI' hr
+
+/-- the undisturbed generator is `Tag.descendants` -/
+theorem genList_eq_takeWhile (h : Heap) (stop : Option Nat) : ∀ (f : Nat) (cur : Option Nat),
+    genList h f ⟨cur, stop⟩ = (chaseNe h f cur).takeWhile (fun e => some e ≠ stop) := by
+  intro f
+  induction f with
+  | zero => intro cur; simp [genList, chaseNe]
+  | succ f ih =>
+    intro cur
+    cases cur with
+    | none => simp [genList, genNext, chaseNe]
+    | some c =>
+      by_cases hc : some c = stop
+      · simp [genList, genNext, chaseNe, hc, List.takeWhile_cons]
+      · simp [genList, genNext, chaseNe, hc, List.takeWhile_cons, ih]
+
+theorem genStart_descendants (h : Heap) (x : Nat) :
+    (∀ st, genStart h x = .ok (some st) → descendants h x = .ok (genList h h.cap st)) ∧
+    (genStart h x = .ok none → descendants h x = .ok []) := by
+  unfold genStart descendants
+  cases (h.kids x).head? with
+  | none => simp
+  | some first =>
+    cases lastDescendant h x true with
+    | error e => simp
+    | ok last =>
+      simp only [Except.ok.injEq, Option.some.injEq, reduceCtorEq, false_implies, and_true]
+      intro st hst
+      subst hst
+      rw [genList_eq_takeWhile]
+
 end BS.Text
